@@ -4,7 +4,7 @@ PATCH=$1; shift
 cd /verif
 git -C /repo apply $PATCH || { echo "patch does not apply to /repo"; exit 9; }
 for p in "$@"; do
-  VERIF_NO_EVIDENCE=1 ./check $p --tier quick 2>&1 | grep -E "VIOLATION|KNOWN-FINDING|done:|INVALID|failing input|PROOF PROBLEM|harness build failed" | cut -c1-700
+  VERIF_NO_EVIDENCE=1 ./check $p --tier quick 2>&1 | grep -E "VIOLATION|KNOWN-FINDING|done:|INVALID|failing input|PROOF PROBLEM|harness build failed|shrunk|shrinker" | cut -c1-700
 done
 git -C /repo checkout -- .
 ( cd /verif/harness && cargo build --offline 2>&1 | grep -E "^error" | head -3 )
